@@ -19,10 +19,14 @@ Section Interp.
   Variable tab : list (list entry).
   Variable ds : list (Q * Q * Q).
   Variable interp : bool.
+  Variable o : options.
   Hypothesis G : good tab.
   Hypothesis Hlen : length tab = n.
   (* every n-gram of order >= 2 has a positive adjusted count *)
   Hypothesis Hpos : forall k e, (2 <= k)%nat -> In e (ents tab k) -> (1 <= e_adj e)%N.
+  (* Callback::Enter's join delivers the specification's back-off weights (KNJoin.v) *)
+  Hypothesis Hbo : forall k, (1 <= k <= n)%nat ->
+    backoffs_impl n o tab ds k = map (fun e => backoff n tab ds k (e_gram e)) (filter kept (ents tab k)).
 
   Notation E := (ents tab).
 
@@ -69,21 +73,23 @@ Section Interp.
     - destruct (w =? UNK)%N; cbn [fst snd]; ring.
   Qed.
 
-  Lemma interp_order_1 : interp_order n tab ds interp 1 [] (filter kept (E 1)) = inl (emit_order n tab ds interp 1).
+  Lemma interp_order_1 : interp_order tab ds interp 1 [] (filter kept (E 1)) (map (fun e => backoff n tab ds 1 (e_gram e)) (filter kept (E 1))) =
+                         inl (emit_order n tab ds interp 1).
   Proof.
     unfold emit_order. assert (H : forall e, In e (filter kept (E 1)) -> In e (E 1)) by (intros e He; apply filter_In in He; tauto).
-    induction (filter kept (E 1)) as [|e l IH]; [reflexivity|]. cbn [interp_order map lower_prob Nat.eqb].
+    induction (filter kept (E 1)) as [|e l IH]; [reflexivity|]. cbn [interp_order map lower_prob Nat.eqb hd tl].
     rewrite IH by (intros x Hx; apply H; right; exact Hx). f_equal. f_equal. unfold emit. f_equal.
     apply Qred_complete. apply uni_value. apply H. left. reflexivity.
   Qed.
 
   Lemma interp_order_k : forall k, (2 <= k <= n)%nat ->
-    interp_order n tab ds interp k (emit_order n tab ds interp (k - 1)) (filter kept (E k)) = inl (emit_order n tab ds interp k).
+    interp_order tab ds interp k (emit_order n tab ds interp (k - 1)) (filter kept (E k)) (map (fun e => backoff n tab ds k (e_gram e)) (filter kept (E k))) =
+    inl (emit_order n tab ds interp k).
   Proof.
     intros k Hk. unfold emit_order at 2.
     assert (H : forall e, In e (filter kept (E k)) -> In e (E k) /\ e_marked e = false).
     { intros e He. apply filter_In in He. destruct He as [He Hm]. unfold kept in Hm. apply negb_true_iff in Hm. tauto. }
-    induction (filter kept (E k)) as [|e l IH]; [reflexivity|]. cbn [interp_order map].
+    induction (filter kept (E k)) as [|e l IH]; [reflexivity|]. cbn [interp_order map hd tl].
     destruct (H e (or_introl eq_refl)) as [He Hm].
     assert (Elow : lower_prob tab k (emit_order n tab ds interp (k - 1)) (e_gram e) =
                    Some (Qred (pkn tab ds interp (rev (tl (removelast (e_gram e)))) (hd UNK (e_gram e))))).
@@ -100,18 +106,18 @@ Section Interp.
   Qed.
 
   Lemma interp_orders_from : forall m k, (1 <= k)%nat -> (k + m = S n)%nat ->
-    interp_orders n tab ds interp (seq k m) (if (k =? 1)%nat then [] else emit_order n tab ds interp (k - 1)) =
+    interp_orders n tab ds interp o (seq k m) (if (k =? 1)%nat then [] else emit_order n tab ds interp (k - 1)) =
     inl (map (emit_order n tab ds interp) (seq k m)).
   Proof.
     induction m as [|m IH]; intros k Hk Hkm; [reflexivity|]. cbn [seq interp_orders map].
-    assert (Ecur : interp_order n tab ds interp k (if (k =? 1)%nat then [] else emit_order n tab ds interp (k - 1)) (filter kept (E k)) =
+    assert (Ecur : interp_order tab ds interp k (if (k =? 1)%nat then [] else emit_order n tab ds interp (k - 1)) (filter kept (E k)) (backoffs_impl n o tab ds k) =
                    inl (emit_order n tab ds interp k)).
-    { destruct (Nat.eqb_spec k 1) as [->|Hne]; [apply interp_order_1|apply interp_order_k; lia]. }
+    { rewrite Hbo by lia. destruct (Nat.eqb_spec k 1) as [->|Hne]; [apply interp_order_1|apply interp_order_k; lia]. }
     rewrite Ecur. specialize (IH (S k) ltac:(lia) ltac:(lia)).
     assert (E1 : (S k =? 1)%nat = false) by (apply Nat.eqb_neq; lia). rewrite E1 in IH. replace (S k - 1)%nat with k in IH by lia.
     rewrite IH. reflexivity.
   Qed.
 
-  Theorem interp_orders_spec : interp_orders n tab ds interp (seq 1 n) [] = inl (map (emit_order n tab ds interp) (seq 1 n)).
+  Theorem interp_orders_spec : interp_orders n tab ds interp o (seq 1 n) [] = inl (map (emit_order n tab ds interp) (seq 1 n)).
   Proof. exact (interp_orders_from n 1 ltac:(lia) ltac:(lia)). Qed.
 End Interp.
